@@ -1,11 +1,12 @@
 import Driver.Ops04
+import Driver.Ops02
 open Driver
 
 def dispatch (line : String) : String :=
   match line.splitOn "\t" with
   | [] => "bad-op"
   | op :: args =>
-    match ops04 op args with
+    match (ops04 op args).orElse (fun _ => ops02 op args) with
     | some r => r
     | none => "bad-op"
 
